@@ -98,7 +98,49 @@ def _run_once(chk):
                               {"case": ls[k], "case_b": ls[k + 1], "dirty": si[k], "clean": si[k + 1]})
 
 
+def cli_append(chk):
+    """the real binary: out(A‖B) = out(A) out(B) on accepted random command lines — B may start with anything, a byte order mark or another
+    magic number included (whatever main does to stdin before the cutters see it must not depend on the position in the stream)"""
+    from cases import rand_cli, _fix_M
+    from common import build_tuc, run_cli
+    rng = chk.rng
+    tuc = build_tuc(release=False)
+    trip = []
+    while len(trip) < (400 if chk.tier == "quick" else 2500):
+        argv, a, c = rand_cli(rng)
+        argv = _fix_M(argv, c)
+        if not argv or c.get("bt") in ("b", "l") or "--json" in argv and False:
+            continue                      # -b and -l are not record-wise
+        eol = b"\0" if c.get("z") else b"\n"
+        if not a.endswith(eol):
+            a += eol
+        _argv2, b, _c2 = rand_cli(rng)
+        if c.get("bt") == "c" or c.get("json"):
+            try:
+                b.decode("utf-8")
+            except UnicodeDecodeError:
+                b = b"ab" + eol
+        if rng.random() < 0.5:
+            b = rng.choice([b"\xef\xbb\xbf", b"\xef\xbb\xbf", b"#!", b"\xff\xfe"] if c.get("bt") != "c" and not c.get("json") else [b"\xef\xbb\xbf"]) + b
+        trip.append((argv, a, b))
+    ra = run_cli(tuc, [(v, a) for v, a, _ in trip])
+    rb = run_cli(tuc, [(v, b) for v, _, b in trip])
+    rab = run_cli(tuc, [(v, a + b) for v, a, b in trip])
+    for (argv, a, b), (sa, oa), (sb, ob), (sab, oab) in zip(trip, ra, rb, rab):
+        chk.evaluations += 1
+        chk.count("cli-append:" + sa)
+        chk.nontrivial_add(("cli-append", tuple(argv), a, b))
+        if sa == "0":
+            ok = sab == sb and oab == oa + ob
+        else:
+            ok = (sab, oab) == (sa, oa)
+        if not ok:
+            chk.report_oracle("CLI: output for A‖B is not output(A) followed by output(B)",
+                              {"argv": argv, "A_hex": a.hex(), "B_hex": b.hex(), "out_A": [sa, oa.hex()], "out_B": [sb, ob.hex()], "out_AB": [sab, oab.hex()]})
+
+
 def run(chk):
+    cli_append(chk)
     # thorough = several independent rounds of the same generators (the PRNG keeps advancing), so that memory stays bounded
     for _round in range(1 if chk.tier == "quick" else 6):
         _run_once(chk)
